@@ -73,7 +73,7 @@ def oracle_c01(tr):
     exempt = [False] * tr.nb
     ra = -1
     for op, res, b0, a0, b1, a1, now, prices in walk(tr):
-        if op[0] == 20:
+        if op[0] == 30:
             ra = op[1]
         if res != "OK":
             continue
